@@ -5,6 +5,7 @@ package main
 import (
 	"fmt"
 	"go/types"
+	"sort"
 	"strings"
 
 	"golang.org/x/tools/go/ssa"
@@ -148,7 +149,12 @@ func (f *Frame) callFunc(in ssa.Instruction, callee *ssa.Function, bindings []Va
 			sub.freeVars[fvv] = bindings[i]
 		}
 	}
-	results, exit, _ := sub.run(guard, st, args)
+	results, exit, retGuard := sub.run(guard, st, args)
+	if exit != nil {
+		// the continuation only runs if the callee returns (partial correctness): past a loop cut point this is what
+		// makes the loop's exit condition available to the caller
+		e.assume(guard, retGuard)
+	}
 	if exit == nil {
 		// callee never returns normally on any path
 		e.assume(guard, "false")
@@ -236,6 +242,21 @@ func (f *Frame) callContract(in ssa.Instruction, ct *Contract, callee *ssa.Funct
 	if self != nil {
 		bind["self"] = *self
 	}
+	// ghost (witness) parameters: values come from the caller's contract (callsite clause), default 0
+	if len(ct.GhostParams) > 0 {
+		var given map[string]SExpr
+		if f.parent == nil && f.contract != nil && f.contract.CallGhost != nil {
+			given = f.contract.CallGhost[fmt.Sprintf("%s#%d", ct.Name, f.callOrdinal(in, ct.Name))]
+		}
+		for _, g := range ct.GhostParams {
+			if ex, ok := given[g]; ok {
+				v := f.specTerm(ex, &specEnv{f: f, st: st, old: f.entry, block: in.Block()})
+				bind[g] = v
+			} else {
+				bind[g] = Val{T: "0", Typ: mathInt}
+			}
+		}
+	}
 	fname := e.P.fnName(f.fn)
 	old := st.clone()
 	env := &specEnv{f: f, st: st, old: old, names: bind, callSite: true}
@@ -258,7 +279,15 @@ func (f *Frame) callContract(in ssa.Instruction, ct *Contract, callee *ssa.Funct
 			props = unionProps(props, f.contract.Props)
 		}
 		if e.primary() {
-			e.oblige("call-requires", fmt.Sprintf("%s:call:%s:requires:%s", fname, ct.Name, clauseName(rq)), props, guard, t, f.pos(in.Pos()), rq.Text)
+			nm := fmt.Sprintf("%s:call:%s:requires:%s", fname, ct.Name, clauseName(rq))
+			if f.parent != nil {
+				// inlined (e.g. deferred closure): name the site of the top-level function it runs at
+				nm = fmt.Sprintf("%s@b%d", nm, e.curBlock)
+				if len(props) == 0 && f.topFrame().contract != nil {
+					props = f.topFrame().contract.Props
+				}
+			}
+			e.oblige("call-requires", nm, props, guard, t, f.pos(in.Pos()), rq.Text)
 		} else {
 			e.assume(guard, t)
 		}
@@ -375,10 +404,13 @@ func (f *Frame) applyModifies(ct *Contract, callee *ssa.Function, env *specEnv, 
 		if !ok {
 			continue
 		}
+		ts := targets[h]
+		if (strings.HasPrefix(h, "ghost_") || strings.HasPrefix(h, "G_")) && len(ts) == 0 {
+			continue // ghost state and globals change only if the modifies clause names them (checked for verified callees)
+		}
 		before := e.getHeap(st, h, sortS)
 		after := e.freshHeap("hc_", h, sortS, na)
 		st.heaps[h] = after
-		ts := targets[h]
 		if strings.HasPrefix(h, "ghost_") || strings.HasPrefix(h, "G_") {
 			continue // whole variable havocked
 		}
@@ -806,4 +838,31 @@ func (f *Frame) builtinAppend(in ssa.Instruction, c *ssa.CallCommon, guard strin
 	res := fmt.Sprintf("(ite %s (mk-slice (s-ref %s) (s-off %s) %s (s-cap %s)) (mk-slice %s (s-off %s) %s %s))", fits, s.T, s.T, n, s.T, nref, s.T, n, ncap)
 	r := e.define("ap_res", sSlice, res)
 	return Val{T: r, Typ: rt}
+}
+
+// callOrdinal: the 1-based position (in source order) of this call among the calls of the same callee in the function.
+func (f *Frame) callOrdinal(in ssa.Instruction, callee string) int {
+	type site struct {
+		pos int
+		in  ssa.Instruction
+	}
+	var sites []site
+	for _, b := range f.fn.Blocks {
+		for _, x := range b.Instrs {
+			ci, ok := x.(ssa.CallInstruction)
+			if !ok {
+				continue
+			}
+			if fn, ok := ci.Common().Value.(*ssa.Function); ok && f.e.P.fnName(fn) == callee {
+				sites = append(sites, site{int(x.Pos()), x})
+			}
+		}
+	}
+	sort.Slice(sites, func(i, j int) bool { return sites[i].pos < sites[j].pos })
+	for i, s := range sites {
+		if s.in == in {
+			return i + 1
+		}
+	}
+	return 0
 }
